@@ -411,9 +411,10 @@ Proof.
       assert (NN : 0 <= (q0 - 1) * q1) by (apply Z.mul_nonneg_nonneg; lia). clear F.
       replace ((q0 - 1) * q1 <? 0) with false by lia.
       split.
-      * intros [[[H A1] B1] A2]. split; [exact H|]. revert A1 B1 A2. atoms; zb; intros; split; intro; try discriminate; lia.
-      * intros [H [S1 S2]]. revert S1 S2. atoms; zb; intros; repeat split; try assumption; try lia;
-          try (intro; first [apply S1 | apply S2]; reflexivity).
+      * intros [[H [A1 A2]] [B1 B2]]. split; [exact H|]. revert A1 A2 B1 B2. atoms; zb; intros; split; intro; try discriminate; lia.
+      * intros [H [S1 S2]]. revert S1 S2. atoms; zb; intros;
+          try (exfalso; apply S1; reflexivity); try (exfalso; apply S2; reflexivity);
+          repeat split; try assumption; lia.
     + rewrite (brick_sq_left s0 s1 EX) in *. cbn [fst snd] in *. replace (1 <? s0) with true by lia.
       cbn [fold_left]. rewrite !in_np_zero. rewrite fst_np_zero. cbn [fst snd].
       unfold np_ravel. rewrite !in_box2 by assumption. cbn [option_map]. unfold norm_idx.
@@ -429,9 +430,10 @@ Proof.
       assert (NN : 0 <= (q0 - 1) * q1) by (apply Z.mul_nonneg_nonneg; lia). clear F.
       replace (q1 - 1 <? 0) with false by lia.
       split.
-      * intros [[[H A1] B1] A2]. split; [exact H|]. revert A1 B1 A2. atoms; zb; intros; split; intro; try discriminate; lia.
-      * intros [H [S1 S2]]. revert S1 S2. atoms; zb; intros; repeat split; try assumption; try lia;
-          try (intro; first [apply S1 | apply S2]; reflexivity).
+      * intros [[H [A1 A2]] [B1 B2]]. split; [exact H|]. revert A1 A2 B1 B2. atoms; zb; intros; split; intro; try discriminate; lia.
+      * intros [H [S1 S2]]. revert S1 S2. atoms; zb; intros;
+          try (exfalso; apply S1; reflexivity); try (exfalso; apply S2; reflexivity);
+          repeat split; try assumption; lia.
   - assert (P : brick_disconnect_positions up s0 s1 = []).
     { unfold brick_disconnect_positions, brick_extra in *. destruct (brick_sq up s0 s1). destruct up; rewrite EX; reflexivity. }
     rewrite P. cbn [fold_left snd]. pose proof (surplus_noextra up s0 s1 r c EX). pose proof (surplus_noextra up s0 s1 r' c' EX). tauto.
